@@ -77,25 +77,42 @@ let parse_call s = match split_on ',' s with
   | [ "s" ] -> CShutdown
   | [ "o" ] -> COther
   | [ "u"; name; ch ] -> CUnregister (bytes_of_hex name, bytes_of_hex ch)
-  | [ "r"; ty; sub; full; host; addrs; port; txt; probe ] ->
+  | [ "r"; ty; sub; full; host; addrs; port; txt; probe; auto ] ->
     CRegister { s_ty = bytes_of_hex ty; s_sub = (if sub = "~" then None else Some (bytes_of_hex sub));
                 s_full = bytes_of_hex full; s_host = bytes_of_hex host;
                 s_addrs = List.map bytes_of_hex (items '+' addrs); s_port = n_of_dec port;
-                s_txt = bytes_of_hex txt; s_probe = (probe = "1"); s_status = [] }
+                s_txt = bytes_of_hex txt; s_probe = (probe = "1"); s_status = []; s_auto = (auto = "1") }
+  | [ "i"; en; kinds ] ->
+    CIfSel (en = "1", List.map (fun k ->
+        if k = "A" then KAll else if k = "4" then KV4 else if k = "6" then KV6
+        else if String.length k > 0 && k.[0] = 'N' then KName (bytes_of_hex (String.sub k 1 (String.length k - 1)))
+        else KUnsupported) (items '+' kinds))
   | _ -> failwith ("call " ^ s)
 
 type it_in = { i_d : int; i_iter : iter; i_wake : n option }
 
 let parse_iter s = match split_on ':' s with
-  | [ "I"; d; now; wake; jit; calls; dgs; mif ] ->
+  | [ "I"; d; now; wake; jit; calls; dgs ] ->
     { i_d = int_of_string d;
       i_wake = (if wake = "n" then None else Some (n_of_dec wake));
       i_iter = { it_now = n_of_dec now; it_dgrams = List.map parse_dgram (items ';' dgs);
-                 it_calls = List.map parse_call (items ';' calls); it_jitter = List.map n_of_dec (items '.' jit);
-                 it_mif = (if mif = "n" then None else Some (n_of_dec mif)) } }
+                 it_calls = List.map parse_call (items ';' calls); it_jitter = List.map n_of_dec (items '.' jit) } }
   | _ -> failwith "iter"
 
+let parse_row s = match split_on ',' s with
+  | [ idx; name; ip; mask ] -> { os_name = bytes_of_hex name; os_index = n_of_dec idx; os_ip = bytes_of_hex ip; os_mask = bytes_of_hex mask }
+  | _ -> failwith "row"
+
+(* the OS tables (token O:<d>:rows) by daemon *)
+let os_tables : (int, osrow list) Hashtbl.t = Hashtbl.create 4
+let init_state k ifs = match Hashtbl.find_opt os_tables k with
+  | Some os -> d_init_os ifs os
+  | None -> d_init ifs
+
 let parse_history (toks : string list) : (int * intf list) list * it_in list =
+  Hashtbl.reset os_tables;
+  List.iter (fun t -> if starts_with t "O:" then
+      (match split_on ':' t with [ _; k; rows ] -> Hashtbl.replace os_tables (int_of_string k) (List.map parse_row (items ';' rows)) | _ -> failwith "O")) toks;
   let ds = List.filter_map (fun t -> if starts_with t "D:" then
       (match split_on ':' t with [ _; k; ifs ] -> Some (int_of_string k, List.map parse_intf (items ';' ifs)) | _ -> failwith "D")
     else None) toks in
@@ -154,8 +171,8 @@ let out_str (o : out) : string =
   | ONameChange (o, nw, ty, i) -> Printf.sprintf "E:N:%s:%s:%s:%s" (hex_of_bytes o) (hex_of_bytes nw) (dec_n ty) (hex_of_bytes i)
   | ORespond i -> "E:R:" ^ hex_of_bytes i
   | OReply (ch, ok) -> "U:" ^ hex_of_bytes ch ^ ":" ^ (if ok then "OK" else "NF")
+  | OIp (added, ip) -> "E:I:" ^ (if added then "+" else "-") ^ ":" ^ hex_of_bytes ip
   | OExit -> "X"
-  | OResend (_, _, _) -> "X"   (* resolved to OSend by place_resends inside iterate *)
 
 let ending_str = function Running -> "R" | Exited -> "X" | Panicked -> "P"
 
@@ -167,7 +184,7 @@ let iter_str (d : int) (now : n) (e : ending) (njit : int) (os : out list) : str
 let run_history (toks : string list) =
   let (ds, its) = parse_history toks in
   let states = Hashtbl.create 4 in
-  List.iter (fun (k, ifs) -> Hashtbl.replace states k (d_init ifs)) ds;
+  List.iter (fun (k, ifs) -> Hashtbl.replace states k (init_state k ifs)) ds;
   List.map (fun ii ->
       let st = Hashtbl.find states ii.i_d in
       let (((st', os), e), rest) = iterate st ii.i_iter in
@@ -218,6 +235,7 @@ let obs_item (s : string) : out option =
                        (match split_on '_' det with [ h; i ] -> Some (bytes_of_hex h, bytes_of_hex i) | _ -> None)))
   | [ "E"; "N"; o; nw; ty; i ] -> Some (ONameChange (bytes_of_hex o, bytes_of_hex nw, n_of_dec ty, bytes_of_hex i))
   | [ "E"; "R"; i ] -> Some (ORespond (bytes_of_hex i))
+  | [ "E"; "I"; sg; ip ] -> Some (OIp (sg = "+", bytes_of_hex ip))
   | [ "U"; ch; r ] -> Some (OReply (bytes_of_hex ch, r = "OK"))
   | _ -> None
 
@@ -254,12 +272,12 @@ let mon_history (id : string) (toks : string list) (result : string) : string =
     let check st0 its_k obs_k =
       match id with
       | "C07" -> chk_C07 g7_init st0 its_k obs_k
-      | "C08" -> chk_C08 st0 its_k obs_k
+      | "C08" -> chk_C08 [] st0 its_k obs_k
       | "C09" -> chk_C09 st0 its_k obs_k
       | _ -> [ VFail (n_of_int 99) ] in
-    let vs = List.concat_map (fun (_, ifs, its_k, obs_k) -> check (d_init ifs) its_k obs_k) per_daemon in
+    let vs = List.concat_map (fun (k, ifs, its_k, obs_k) -> check (init_state k ifs) its_k obs_k) per_daemon in
     (* the same checker on the model's own run of this history: never a VFail *)
-    let self = List.concat_map (fun (_, ifs, its_k, _) -> check (d_init ifs) its_k (model_obs (d_init ifs) its_k)) per_daemon in
+    let self = List.concat_map (fun (k, ifs, its_k, _) -> check (init_state k ifs) its_k (model_obs (init_state k ifs) its_k)) per_daemon in
     let self_fail = List.exists (function VFail _ -> true | _ -> false) self in
     (* several daemons registering one instance on a loss-free link: the final outcome *)
     let final =
